@@ -143,9 +143,9 @@ func writeUnionClass(w *formatting.IndentedWriter, className string, typeParamet
 			}
 
 			if len(typeParameters) > 0 {
-				fmt.Fprintf(w, "%s: typing.ClassVar[type[\"%s[%s, %s]\"]] # type: ignore\n", formatting.ToPascalCase(tc.Tag), unionCaseType, typeParameters, common.TypeSyntax(tc.Type, contextNamespace))
+				fmt.Fprintf(w, "%s: typing.ClassVar[type[\"%s[%s, %s]\"]] # type: ignore\n", common.UnionCaseIdentifierName(tc.Tag), unionCaseType, typeParameters, common.TypeSyntax(tc.Type, contextNamespace))
 			} else {
-				fmt.Fprintf(w, "%s: typing.ClassVar[type[\"%s[%s]\"]]\n", formatting.ToPascalCase(tc.Tag), unionCaseType, common.TypeSyntax(tc.Type, contextNamespace))
+				fmt.Fprintf(w, "%s: typing.ClassVar[type[\"%s[%s]\"]]\n", common.UnionCaseIdentifierName(tc.Tag), unionCaseType, common.TypeSyntax(tc.Type, contextNamespace))
 			}
 		}
 	})
@@ -161,7 +161,7 @@ func writeUnionClass(w *formatting.IndentedWriter, className string, typeParamet
 		if tc.Type == nil {
 			continue
 		}
-		pascalTag := formatting.ToPascalCase(tc.Tag)
+		pascalTag := common.UnionCaseIdentifierName(tc.Tag)
 		fmt.Fprintf(w, "%s.%s = type(\"%s.%s\", (%s,), {\"index\": %d, \"tag\": \"%s\"})\n", className, pascalTag, className, pascalTag, unionCaseType, i, tc.Tag)
 		i++
 	}
@@ -705,7 +705,7 @@ func writeSwitchCaseOverUnion(w *formatting.IndentedWriter, unionType *dsl.Gener
 						visitor.Visit(switchCase.Expression, tail)
 					})
 				} else {
-					fmt.Fprintf(w, "if isinstance(%s, %s.%s):\n", variableName, unionClassName, formatting.ToPascalCase(typeCase.Tag))
+					fmt.Fprintf(w, "if isinstance(%s, %s.%s):\n", variableName, unionClassName, common.UnionCaseIdentifierName(typeCase.Tag))
 					w.Indented(func() {
 						if declarationIdentifier != "" {
 							fmt.Fprintf(w, "%s = %s.value\n", declarationIdentifier, variableName)
@@ -851,7 +851,7 @@ func typeDefault(t dsl.Type, contextNamespace string, namedType string, st dsl.S
 				unionClassName, _ = common.UnionClassName(t)
 			}
 
-			unionCaseConstructor := fmt.Sprintf("%s.%s", unionClassName, formatting.ToPascalCase(t.Cases[0].Tag))
+			unionCaseConstructor := fmt.Sprintf("%s.%s", unionClassName, common.UnionCaseIdentifierName(t.Cases[0].Tag))
 
 			switch defaultKind {
 			case defaultValueKindNone:
@@ -996,7 +996,7 @@ func writeGetDTypeFunc(w *formatting.IndentedWriter, ns *dsl.Namespace) {
 		writeUnionCaseDtypes := func(gt *dsl.GeneralizedType, unionClassName string) {
 			for _, tc := range gt.Cases {
 				if tc.Type != nil && !dsl.TypeContainsGenericTypeParameter(tc.Type) {
-					tag := formatting.ToPascalCase(tc.Tag)
+					tag := common.UnionCaseIdentifierName(tc.Tag)
 					fmt.Fprintf(w, "dtype_map.setdefault(%s.%s, %s)\n", unionClassName, tag, typeDTypeExpression(tc.Type, context))
 				}
 			}
